@@ -214,35 +214,39 @@ struct VarRunner {
         o.num(val);
     }
 
-    static void observers(Out& o, V const& a, V const& b)
+    static void observers(Out& o, V& a, V& b)
     {
-        // holds_alternative / get_if masks, single visit, relations both orders, 2- and 3-variant visit
-        for (V const* x : {&a, &b}) {
+        // holds_alternative / get_if masks (const by index, const by type, non-const by index and
+        // by type), single visit, relations both orders, 2- and 3-variant visit
+        for (V* x : {&a, &b}) {
             std::string h;
             std::string g;
+            V const* cx = x;
             [&]<std::size_t... I>(std::index_sequence<I...>) {
-                ((h += Lib::template holds<alt<I>>(*x) ? '1' : '0'), ...);
+                ((h += Lib::template holds<alt<I>>(*cx) ? '1' : '0'), ...);
+                ((g += Lib::template get_if<I>(cx) != nullptr ? '1' : '0'), ...);
+                ((g += Lib::template get_if_t<alt<I>>(cx) != nullptr ? '1' : '0'), ...);
                 ((g += Lib::template get_if<I>(x) != nullptr ? '1' : '0'), ...);
                 ((g += Lib::template get_if_t<alt<I>>(x) != nullptr ? '1' : '0'), ...);
             }(std::make_index_sequence<N>{});
             o.tok("h").tok(h).tok(g);
-            Lib::visit([&](auto const& v) { o.tok("v").num(tid<std::remove_cvref_t<decltype(v)>>).num(enc(v)); }, *x);
+            Lib::visit([&](auto const& v) { o.tok("v").num(tid<std::remove_cvref_t<decltype(v)>>).num(enc(v)); }, *cx);
         }
-        six(o, [&](int k) { return rel6(k, a, b); });
-        six(o, [&](int k) { return rel6(k, b, a); });
+        six(o, [&](int k) { return rel6(k, std::as_const(a), std::as_const(b)); });
+        six(o, [&](int k) { return rel6(k, std::as_const(b), std::as_const(a)); });
         Lib::visit(
             [&](auto const& l, auto const& r) {
                 o.tok("v2").num(tid<std::remove_cvref_t<decltype(l)>>).num(enc(l));
                 o.num(tid<std::remove_cvref_t<decltype(r)>>).num(enc(r));
             },
-            a, b);
+            std::as_const(a), std::as_const(b));
         Lib::visit(
             [&](auto const& l, auto const& r, auto const& m) {
                 o.tok("v3").num(tid<std::remove_cvref_t<decltype(l)>>).num(enc(l));
                 o.num(tid<std::remove_cvref_t<decltype(r)>>).num(enc(r));
                 o.num(tid<std::remove_cvref_t<decltype(m)>>).num(enc(m));
             },
-            b, a, b);
+            std::as_const(b), std::as_const(a), std::as_const(b));
     }
 
     static void run(Out& o, std::vector<Step> const& steps)
@@ -443,6 +447,7 @@ struct OptRunner {
     static void run(Out& o, std::vector<Step> const& steps)
     {
         g_life.reset();
+        std::string detail;
         {
             O a;
             O b{Lib::nullopt};
@@ -525,8 +530,16 @@ struct OptRunner {
             }
             observers(o, a, b, c);
             observers(o, b, a, c);
+            if constexpr (Lib::is_etl) {
+                // etl only (UB in std): operator-> of a disengaged optional returns nullptr
+                detail += (a.operator->() == nullptr) ? '1' : '0';
+                detail += (std::as_const(a).operator->() == nullptr) ? '1' : '0';
+                detail += (b.operator->() == nullptr) ? '1' : '0';
+                detail += (std::as_const(b).operator->() == nullptr) ? '1' : '0';
+            }
         }
         life_report(o);
+        if constexpr (Lib::is_etl) { o.tok("#").tok(detail); }
     }
 };
 
@@ -598,6 +611,7 @@ struct ExpRunner {
     static void run(Out& o, std::vector<Step> const& steps)
     {
         g_life.reset();
+        std::string detail;
         {
             X a{};
             X b(Lib::unexpect, raw<E>(0));
@@ -646,8 +660,16 @@ struct ExpRunner {
             }
             observers(o, a);
             observers(o, b);
+            if constexpr (Lib::is_etl) {
+                // etl only (UB in std): operator-> of an expected without value returns nullptr
+                detail += (a.operator->() == nullptr) ? '1' : '0';
+                detail += (std::as_const(a).operator->() == nullptr) ? '1' : '0';
+                detail += (b.operator->() == nullptr) ? '1' : '0';
+                detail += (std::as_const(b).operator->() == nullptr) ? '1' : '0';
+            }
         }
         life_report(o);
+        if constexpr (Lib::is_etl) { o.tok("#").tok(detail); }
     }
 };
 
@@ -657,6 +679,54 @@ static void run_expected(Toks& in, Out& impl, Out& ref)
     auto steps = read_steps(in);
     guarded(impl, [&](Out& o) { ExpRunner<EtlLib, T, E>::run(o, steps); });
     ExpRunner<StdLib, T, E>::run(ref, steps);
+}
+
+// ------------------------------------------------------------------------- unexpected
+template <bool Etl, typename E, typename E2>
+struct UnexRunner {
+    using X  = std::conditional_t<Etl, etl::unexpected<E>, std::unexpected<E>>;
+    using X2 = std::conditional_t<Etl, etl::unexpected<E2>, std::unexpected<E2>>;
+
+    static void run(Out& o, std::vector<Step> const& steps)
+    {
+        g_life.reset();
+        {
+            X a(raw<E>(0));
+            X b(raw<E>(0));
+            X2 c(raw<E2>(0));
+            o.tok("ok");
+            for (auto const& st : steps) {
+                X& x      = st.t == 0 ? a : b;
+                X& y      = st.t == 0 ? b : a;
+                bool done = true;
+                switch (st.opc) {
+                case 'v': x = X(raw<E>(st.p)); break;
+                case 'i':
+                    if constexpr (Etl) { x = X(etl::in_place, raw<E>(st.p)); } else { x = X(std::in_place, raw<E>(st.p)); }
+                    break;
+                case 'c': x = y; break;
+                case 'm': x = std::move(y); break;
+                case 's': a.swap(b); break;
+                case 'S': swap(a, b); break; // the hidden friend, found by ADL
+                case 'E': c = X2(raw<E2>(st.p)); break;
+                default: done = false; break;
+                }
+                if (!done) { o.tok("bad-step"); }
+                o.num(enc(a.error())).num(enc(std::as_const(b).error())).num(enc(X2(c).error()));
+                o.b(a == b).b(a != b).b(a == c).b(b == c);
+                o.tok(";");
+            }
+        }
+        life_report(o);
+    }
+};
+
+template <typename E, typename E2>
+static void run_unexpected(Toks& in, Out& impl, Out& ref)
+{
+    auto steps = read_steps(in);
+    guarded(impl, [&](Out& o) { UnexRunner<true, E, E2>::run(o, steps); });
+    UnexRunner<false, E, E2>::run(ref, steps);
 }
 
 // ------------------------------------------------------------------------- optional<T&>
@@ -856,6 +926,8 @@ bool vh::run_case(std::string const& op, Toks& in, Out& impl, Out& ref)
     if (op == "exp.il") { return run_expected<int, long>(in, impl, ref), true; }
     if (op == "exp.tt") { return run_expected<Tracked, Tracked2>(in, impl, ref), true; }
     if (op == "exp.ti") { return run_expected<Tracked, int>(in, impl, ref), true; }
+    if (op == "unx.il") { return run_unexpected<int, long>(in, impl, ref), true; }
+    if (op == "unx.tt") { return run_unexpected<Tracked, Tracked2>(in, impl, ref), true; }
     if (op == "ref.i") { return run_optref<int>(in, impl, ref), true; }
     if (op == "ref.t") { return run_optref<Tracked>(in, impl, ref), true; }
     if (op == "disp") {
